@@ -113,13 +113,25 @@ def hook(w, job, part):
                 if ti2['rv'] == 0 and bytes.fromhex(ti2['label']).rstrip(b' ') == t.label: t.serial = bytes.fromhex(ti2['serial'])
             if t.serial is None: w.F('C14', 'softhsm2-util|init-token|token-not-found', 'the token created by softhsm2-util is not found by the library'); t.serial = b'0' * 16
         w.remap_slots()
+    def add_junk():
+        """things an administrator or an interrupted run leaves in the token directory: they are not tokens and must not stop the library from finding the tokens (every name sorts / hashes differently,
+        so that whatever order readdir() uses some of them come before the tokens)"""
+        import uuid
+        td = os.path.join(w.d, 'tokens'); n = len([e for e in os.listdir(td) if e.startswith(('lost+found', 'backup-', 'junk-', '.'))])
+        if n: return
+        os.makedirs(os.path.join(td, 'lost+found'), exist_ok=True); os.makedirs(os.path.join(td, '.snapshot'), exist_ok=True)
+        for i in range(10):
+            dn = os.path.join(td, str(uuid.UUID(int=rnd.getrandbits(128))) if i % 2 else 'backup-%d-%d' % (i, rnd.randrange(10 ** 6))); os.makedirs(dn, exist_ok=True)          # an empty directory named like a token / a backup folder
+            if i % 4 == 0: open(os.path.join(dn, 'notes.txt'), 'w').write('not a token\n')
+        open(os.path.join(td, 'junk-README'), 'w').write('plain file\n'); w.cov('C14', ('stray-entries-in-token-directory',))
     names = [n for n, k in OPS.items() for _ in range(k) if not (n == 'copy' and job['backend'] == 'db')]
     for i in range(job['steps']):
         op = rnd.choice(names); w.stats['steps'] += 1
         if op == 'open' and len(w.m.live_sessions()) >= 6: op = 'close'
         if op == 'newtoken': newtoken(); touched = len(w.m.toks) - 1
-        elif op == 'restart': w.op_restart(False); touched = None
-        elif op == 'restart_proc': w.op_restart(True); touched = None
+        elif op in ('restart', 'restart_proc'):
+            if rnd.random() < 0.4: add_junk()
+            w.op_restart(op == 'restart_proc'); touched = None
         elif op == 'util_init': util_restart('init'); touched = None
         elif op == 'util_delete': util_restart('delete'); touched = None
         elif op == 'audit': ti = rnd.randrange(len(w.m.toks)); audit(ti); touched = ti
@@ -148,10 +160,107 @@ def hook(w, job, part):
     if not any(f.prop in ('C14', 'MODEL') for f in w.findings):
         for ti in range(len(w.m.toks)): audit(ti)
 
+# ---- directed non-interference: the same script on token A must give the same answers whatever token B's sessions and login state are
+SO_A, US_A, SO_B, US_B = b'so-pin-A14', b'user-pin-A14', b'so-pin-B14', b'user-pin-B14'
+B_CONTEXTS = ('no-session', 'ro-public-session', 'rw-user-logged-in', 'rw-so-logged-in', 'two-sessions-user')
+def noninterference(ctx, backend):
+    ck = ctx.ck
+    def setup(name):
+        d = ctx.dir(f'c14-ni-{backend}-{name}'); x = ctx.new_exec('asan', d, backend); assert x.call('C_Initialize', locking='os')['rv'] == 0
+        slots = []
+        for so, us, lab in ((SO_A, US_A, b'tokA'), (SO_B, US_B, b'tokB')):
+            x.call('C_GetSlotList', null=True); free = x.call('C_GetSlotList', count=16)['slots'][-1]; assert x.call('C_InitToken', slot=free, pin=so.hex(), label=lab.hex())['rv'] == 0, 'InitToken'
+            s = x.call('C_OpenSession', slot=free)['h']; assert x.call('C_Login', s=s, user=0, pin=so.hex())['rv'] == 0 and x.call('C_InitPIN', s=s, pin=us.hex())['rv'] == 0
+            assert x.call('C_Logout', s=s)['rv'] == 0 and x.call('C_Login', s=s, user=1, pin=us.hex())['rv'] == 0
+            assert x.call('C_CreateObject', s=s, tmpl=x.T({'CKA_CLASS': ck.CKO_DATA, 'CKA_TOKEN': True, 'CKA_PRIVATE': True, 'CKA_LABEL': lab + b'-private', 'CKA_VALUE': b'v' * 8}))['rv'] == 0
+            assert x.call('C_CloseSession', s=s)['rv'] == 0; slots.append(free)
+        return x, slots[0], slots[1]
+    def context(x, b, name):
+        if name == 'no-session': return
+        if name == 'ro-public-session': assert x.call('C_OpenSession', slot=b, flags=ck.CKF_SERIAL_SESSION)['rv'] == 0; return
+        s = x.call('C_OpenSession', slot=b)['h']
+        if name == 'two-sessions-user': assert x.call('C_OpenSession', slot=b, flags=ck.CKF_SERIAL_SESSION)['rv'] == 0
+        assert x.call('C_Login', s=s, user=0 if name == 'rw-so-logged-in' else 1, pin=(SO_B if name == 'rw-so-logged-in' else US_B).hex())['rv'] == 0
+    def state(x, s):
+        r = x.call('C_GetSessionInfo', s=s); return (r['rvname'], r.get('state'))
+    def script(x, a):
+        """what token A answers; every entry must be the same in every B context"""
+        out = []; O = lambda **kw: x.call('C_OpenSession', slot=a, **kw)
+        s1 = O()['h']; out.append(('login user', x.call('C_Login', s=s1, user=1, pin=US_A.hex())['rvname'])); out.append(('close last session', x.call('C_CloseSession', s=s1)['rvname']))
+        s2 = O()['h']; out.append(('state after closing the last session and reopening', state(x, s2))); out.append(('private objects visible then', len(x.findall(s2, {})[1])))
+        out.append(('login so', x.call('C_Login', s=s2, user=0, pin=SO_A.hex())['rvname'])); out.append(('open RO while SO logged in', O(flags=ck.CKF_SERIAL_SESSION)['rvname']))
+        out.append(('close all', x.call('C_CloseAllSessions', slot=a)['rvname'])); s3 = O()['h']; out.append(('state after C_CloseAllSessions and reopening', state(x, s3)))
+        ro = O(flags=ck.CKF_SERIAL_SESSION)['h']; out.append(('SO login with an RO session on A', x.call('C_Login', s=s3, user=0, pin=SO_A.hex())['rvname'])); x.call('C_CloseSession', s=ro)
+        out.append(('SO login without RO session on A', x.call('C_Login', s=s3, user=0, pin=SO_A.hex())['rvname'])); out.append(('logout', x.call('C_Logout', s=s3)['rvname']))
+        out.append(('wrong user pin', x.call('C_Login', s=s3, user=1, pin=b'wrong-pin'.hex())['rvname'])); out.append(('state after wrong pin', state(x, s3)))
+        out.append(('InitToken with a session open on A', x.call('C_InitToken', slot=a, pin=SO_A.hex(), label=b'tokA2'.hex())['rvname'])); x.call('C_CloseAllSessions', slot=a)
+        out.append(('InitToken wrong SO pin', x.call('C_InitToken', slot=a, pin=b'not-the-so-pin'.hex(), label=b'tokA2'.hex())['rvname']))
+        out.append(('InitToken without sessions on A', x.call('C_InitToken', slot=a, pin=SO_A.hex(), label=b'tokA2'.hex())['rvname']))
+        s4 = O()['h']; out.append(('old user pin after re-init', x.call('C_Login', s=s4, user=1, pin=US_A.hex())['rvname'])); out.append(('objects after re-init (as SO)', (x.call('C_Login', s=s4, user=0, pin=SO_A.hex())['rvname'], len(x.findall(s4, {})[1]))))
+        x.call('C_CloseAllSessions', slot=a); return out
+    base = None
+    for name in B_CONTEXTS:
+        x = None
+        try:
+            x, a, b = setup(name); context(x, b, name); sb = [h for h in range(1, 40) if x.call('C_GetSessionInfo', s=h).get('slot') == b]; before = [state(x, h) for h in sb]
+            got = script(x, a); after = [state(x, h) for h in sb]
+            if before != after: ctx.violation(f'isolation|directed|B={name}|sessions-or-login-of-B-changed', 'a script run on token A changed the sessions or the login state of token B', {'backend': backend, 'before': before, 'after': after})
+            if base is None: base = got
+            else:
+                for (what, v0), (_, v1) in zip(base, got):
+                    if v0 != v1: ctx.violation(f'isolation|directed|B={name}|A:{what}|differs-from-B=no-session', 'token A answers differently depending on the sessions / login state of token B', {'backend': backend, 'step': what, 'with_B_idle': v0, 'with_B_' + name: v1}); break
+            ctx.case(('non-interference', backend, name), sample={'non_interference_script_on_A': [list(e) for e in got[:6]], 'B': name, 'backend': backend} if name == 'rw-user-logged-in' else None)
+            x.call('C_Finalize'); x.close(); x = None
+        except AssertionError as e: ctx.inconc(f'non-interference scenario setup failed ({backend}, {name}): {e!r}')
+        finally:
+            if x is not None: x.kill()
+
+def reinit_two_process(ctx, backend):
+    """process A keeps the library initialised (no session open) while process B re-initialises the token and stores a new object: what A sees afterwards must be the
+    re-initialised token - the new label, no user PIN, exactly the new object with the new value - never anything of the objects the re-initialisation removed"""
+    ck = ctx.ck; A = B = None
+    try:
+        d = ctx.dir(f'c14-2p-{backend}'); A = ctx.new_exec('asan', d, backend); assert A.call('C_Initialize', locking='os')['rv'] == 0
+        slot = A.call('C_GetSlotList', count=16)['slots'][-1]; assert A.call('C_InitToken', slot=slot, pin=SO_A.hex(), label=b'before-reinit'.hex())['rv'] == 0
+        s = A.call('C_OpenSession', slot=slot)['h']; assert A.call('C_Login', s=s, user=0, pin=SO_A.hex())['rv'] == 0 and A.call('C_InitPIN', s=s, pin=US_A.hex())['rv'] == 0 and A.call('C_Logout', s=s)['rv'] == 0
+        assert A.call('C_Login', s=s, user=1, pin=US_A.hex())['rv'] == 0
+        for i in range(3):
+            tm = {'CKA_CLASS': ck.CKO_DATA, 'CKA_TOKEN': True, 'CKA_PRIVATE': i == 1, 'CKA_LABEL': b'old-%d' % i, 'CKA_APPLICATION': b'app-old', 'CKA_VALUE': b'OLD-VALUE-%d-' % i + b'o' * 20}
+            assert A.call('C_CreateObject', s=s, tmpl=A.T(tm))['rv'] == 0
+        for h in A.findall(s, {})[1]: A.getattrs(s, h, ['CKA_LABEL', 'CKA_VALUE', 'CKA_APPLICATION', 'CKA_PRIVATE', 'CKA_CLASS'])          # A has looked at everything
+        assert A.call('C_CloseAllSessions', slot=slot)['rv'] == 0
+        B = ctx.new_exec('asan', d, backend, reuse_dir=True); assert B.call('C_Initialize', locking='os')['rv'] == 0
+        bslot = [sl for sl in B.call('C_GetSlotList', count=16)['slots'] if B.call('C_GetTokenInfo', slot=sl)['flags'] & ck.CKF_TOKEN_INITIALIZED][0]
+        assert B.call('C_InitToken', slot=bslot, pin=SO_A.hex(), label=b'after-reinit'.hex())['rv'] == 0, 're-init in the second process'
+        sb = B.call('C_OpenSession', slot=bslot)['h']; n_b = len(B.findall(sb, {})[1])
+        new = {'CKA_CLASS': ck.CKO_DATA, 'CKA_TOKEN': True, 'CKA_PRIVATE': False, 'CKA_LABEL': b'new-0', 'CKA_APPLICATION': b'app-new', 'CKA_VALUE': b'NEW-VALUE-' + b'n' * 20}
+        assert B.call('C_CreateObject', s=sb, tmpl=B.T(new))['rv'] == 0; B.call('C_Finalize'); B.close(); B = None
+        if n_b: ctx.violation(f'C_InitToken|re-init,{backend}|objects-survive', 'objects of the token are still found right after its re-initialisation', {'backend': backend, 'found': n_b})
+        ti = A.call('C_GetTokenInfo', slot=slot); s2 = A.call('C_OpenSession', slot=slot); assert s2['rv'] == 0; s2 = s2['h']
+        seen = []
+        for h in A.findall(s2, {})[1]:
+            rvn, v = A.getattrs(s2, h, ['CKA_LABEL', 'CKA_VALUE', 'CKA_APPLICATION']); seen.append({k: (x.decode('latin-1') if x is not None else None) for k, x in v.items()})
+        wit = {'backend': backend, 'seen_by_the_first_process': seen, 'label': bytes.fromhex(ti.get('label', '')).rstrip(b' ').decode('latin-1')}
+        if any((o.get('CKA_VALUE') or '').startswith('OLD') or (o.get('CKA_LABEL') or '').startswith('old') or o.get('CKA_APPLICATION') == 'app-old' for o in seen):
+            ctx.violation(f'C_InitToken|re-init-by-another-process,{backend}|removed-object-or-its-attributes-still-returned', 'after another process re-initialised the token, this process still returns (attributes of) an object that the re-initialisation removed', wit)
+        elif len(seen) != 1: ctx.violation(f'C_InitToken|re-init-by-another-process,{backend}|found-{len(seen)}-objects-instead-of-1', 'after another process re-initialised the token and stored one object, this process does not find exactly that object', wit)
+        r = A.call('C_Login', s=s2, user=1, pin=US_A.hex())
+        if r['rv'] == 0: ctx.violation(f'C_InitToken|re-init-by-another-process,{backend}|old-user-pin-still-logs-in', 'the user PIN removed by a re-initialisation in another process still logs in here', wit)
+        ctx.case(('re-init-two-processes', backend), sample={'two_process_reinit': wit})
+        A.call('C_Finalize'); A.close(); A = None
+    except AssertionError as e: ctx.inconc(f'two-process re-initialisation scenario failed to set up ({backend}): {e!r}')
+    finally:
+        for x in (A, B):
+            if x is not None: x.kill()
+
 def run(ctx):
+    ctx.need('asan')
+    for be in ('file', 'db'): reinit_two_process(ctx, be)
+    for be in ('file', 'db'): noninterference(ctx, be)
     ctx.rule = ('histories over 2-4 tokens: C_InitToken (fresh on the free slot / re-init, right / wrong SO PIN, with / without sessions), softhsm2-util --init-token / --delete-token of the same build as another actor, '
-                'object and PIN operations, C_Finalize/C_Initialize and new-process restarts; after every call every OTHER token is probed (session states, visible object set, an attribute) against the model, '
+                'object and PIN operations, C_Finalize/C_Initialize and new-process restarts (40 % of them after stray non-token entries were put into the token directory); after every call every OTHER token is probed (session states, visible object set, an attribute) against the model, '
                 'after every restart every token must be found again under slot = last 8 hex digits of the serial & 0x7fffffff with label/flags unchanged, and quiescent audits log in with both PINs and compare all objects; '
+                'plus a directed non-interference table: one fixed script on token A (login, close last session, close-all, SO login with / without an RO session, wrong PIN, C_InitToken with / without sessions, re-init) is run under five states of token B and must give identical answers; '
                 'distinct = (step kind, token relation / login state) classes exercised')
     run_walks(ctx, {'C14'}, ctx.q(320, 3000), ctx.q(60, 70), backends=('file', 'db'), hook=hook, ntok=2, max_sessions=6)
     ctx.assumptions += ['use of token A\'s handles through token B\'s sessions is outside the property', 'C_CopyObject on the db back-end is a known finding of C05/C20 and excluded from db histories']
